@@ -8,19 +8,11 @@ HERE = os.path.dirname(os.path.dirname(os.path.abspath(__file__)))
 PARTIAL = (" The named clauses are necessary conditions of the property and are decided exactly from the source on "
            "every run; the rest of the property is NOT decided by this check.")
 
-CHECKS = {
-    "C12": dict(
-        technique="typestate / save-change-restore pairing over every context manager (ast + own CFG, path enumeration, who-may-call)",
-        text="Static typestate analysis, package wide: every state change found in any __enter__ (tty attributes, file "
-             "status flags, SIGINT handler, wake-up fd, pipe descriptors, cursor, delegated contexts) must be saved before "
-             "it is made and restored with the saved value on every feasible path of the matching __exit__; raw "
-             "state-changing primitives may be called nowhere else; context managers are only used through `with` or "
-             "paired delegation. Decides the restore discipline for every exit path (the `with` statement supplies the "
-             "exception clause); does not decide what the OS calls do.",
-        note="trusted: Python `with` semantics; termios/tty/fcntl/signal/os/blessed behave as named; ast of CPython 3.12; "
-             "exceptions raised inside __enter__/__exit__ themselves are outside the property and not modelled",
-        design="DESIGN.md section 3 C12"),
-}
+BOUNDED = (" This is a BOUNDED claim: the package's source is evaluated by the checker's own abstract interpreter (never by "
+           "CPython, never imported) on the finite catalogue named here and compared with an independent reference model; it "
+           "holds on that catalogue and nothing beyond it is decided.")
+
+CHECKS = {}
 
 CHECKS["C13"] = dict(
     technique="whole-package effect analysis: who-may-write tracked fields, may-alias analysis of run lists and attribute dicts, memo-accessor shape",
@@ -133,65 +125,95 @@ CHECKS["C20"] = dict(
     design="DESIGN.md section 3 C20")
 
 CHECKS["C02"] = dict(
-    technique="terminal-effect token extraction + per-path protocol rules over the render loops (path enumeration with feasibility pruning), argument->parameter->store dataflow for the size record, who-may-write the cache",
-    text="Every write of FullscreenWindow.render_to_terminal is classified by the blessed capability it names and the loop "
-         "bodies are checked path by path: draw = move,text,clear_eol exactly when shorter than the width; every path "
-         "records the row; skip only under equality with the cached content of the same row; rows below the array blanked "
-         "unless a non-empty cache knows nothing about them; cache dropped when height OR width changed and each dimension "
-         "recorded under its own name; per-call record committed after the loops and written by nobody else; cursor moved "
-         "last; rows iterated and text written are bounded by the terminal size (never scrolls); the equality used is "
-         "FmtStr.__eq__ on terminal strings (C19's H1 re-run).",
-    note="trusted: blessed capabilities and terminal semantics behave as named (pending-wrap at the last column); not "
-         "decided: what the terminal shows, wide characters, exceptions in the middle of a render",
-    design="DESIGN.md section 3 C02")
+    technique="abstract interpretation (constant-propagation domain, own evaluator over the ast) of FullscreenWindow against a reference terminal model over a catalogue of render / resize histories; C19 equality rules and C13 cache-coherence rules re-run",
+    text="FullscreenWindow's own __init__/__enter__/render_to_terminal/__exit__ (and the FmtStr/FSArray code they call) are "
+         "interpreted with blessed.Terminal replaced by a stub returning xterm control strings; everything written is fed to a "
+         "reference terminal model (cursor addressing with clamping, deferred wrap at the last column, line feed scrolling, "
+         "erase with current background, SGR via the ECMA-48 machine, alternate screen). For 3 terminal sizes (6 thorough), a "
+         "pool of 10 (14) arrays (FSArray / lists of FmtStr / lists of str, heights 0..beyond the screen, row lengths 0..beyond "
+         "the width, full-width rows, rows differing only in formatting, formatted blanks) and for every ordered pair A, B the "
+         "history A, A, B, A - without and with a resize (taller, wider, smaller, transposed) that leaves junk in every cell - "
+         "with hide_cursor on and off: after every render the model screen equals the array's top-left part cell by cell "
+         "(character and formatting), all other cells blank and unformatted, cursor at cursor_pos, no line scrolled; leaving "
+         "restores the main screen. FmtStr.__eq__ compares terminal strings (C19 H1) and the cached strings cannot go stale "
+         "(C13 I1-I3, I7).",
+    note="trusted: sa/termmodel.py as a description of the terminal, blessed returning the xterm strings, the evaluator of sa/ "
+         "(fail-closed: unknown values, forks and skipped statements are analysis errors); not decided: histories longer than "
+         "four renders, larger terminals, wide characters",
+    design="DESIGN.md section 3 C02", bounded=True)
 CHECKS["C07"] = dict(
-    technique="terminal-effect token extraction + per-path protocol rules, scroll accounting per path, affine-form check of the recorded cursor row, who-may-write top_usable_row",
-    text="The non-scrolling part obeys C02's draw/record/skip/blank/invalidate/commit rules on rows range(top_usable_row, "
-         "height); every path of the surplus-line loop has one scroll, exactly one of top_usable_row -= 1 (guarded by a test "
-         "of that same attribute > 0) / offscreen_scrolls += 1, a re-key of the record by -1 and a draw on the bottom row; "
-         "the function returns the off-screen count; every MOVE addresses a window row, the bottom row or the recorded cursor "
-         "row; the recorded cursor row is the affine form cursor_pos[0] - offscreen + top_usable_row (clamp at 0 only) and "
-         "the last effect moves there; __exit__ emits only downward-clearing effects; scroll_down is a line feed at the "
-         "bottom inside a cursor save/restore.",
-    note="trusted: blessed/terminal scrolling semantics; not decided: scrollback content, top_usable_row as a number across "
-         "SIGWINCH",
-    design="DESIGN.md section 3 C07")
+    technique="abstract interpretation of CursorAwareWindow against a reference terminal model (which also answers the cursor position query) over a catalogue of initial screens x render histories, compared with the property restated in absolute line numbers",
+    text="CursorAwareWindow's own __init__/__enter__ (cursor query included)/render_to_terminal/scroll_down/__exit__ are "
+         "interpreted against the reference terminal. For 2 terminal sizes (4 thorough), initial screens with 0..more than a "
+         "screenful of old lines and the cursor after them or moved up onto a row holding output, a pool of arrays (height "
+         "0..height+3; plain, red-odd, empty and str rows, full-width, arrays continuing a scrolled one) and the histories A, B, "
+         "A for ordered pairs, keep_last_line / hide_cursor rotated: with W the window top and S the lines scrolled so far, a "
+         "render of n rows scrolls exactly max(0, W+n-(S+height)) lines, returns the number of array rows pushed off the top, "
+         "leaves every line above W unchanged, shows array row i on line W+i (also rows now in the scrollback), every line "
+         "below blank and unformatted, the cursor on the designated cell; leaving the context leaves every line above W unchanged.",
+    note="trusted: sa/termmodel.py (LF at the bottom row scrolls by one, save/restore cursor, CPR), the evaluator of sa/; not "
+         "decided: longer histories, rows wider than the terminal, resizes between renders (C18)",
+    design="DESIGN.md section 3 C07", bounded=True)
 CHECKS["C18"] = dict(
-    technique="regular-language comparison (DFA) of the report pattern against the CPR grammar, def-use of match groups to the result, read-size and loop-shape rules, affine effect summaries per loop path, Optional-int truthiness lint",
-    text="The cursor report pattern (located through re.search or a module-level re.compile) accepts, as a match of "
-         "everything read so far, exactly <anything incl. newlines><ESC[ or 0x9b>digits;digitsR (DFA inclusion both ways), "
-         "so all preceding bytes land in `extra`; the result is (int(row)-1, int(column)-1); only read(1) is used and the "
-         "match is attempted after every read; extra goes encoded to the callback or raises ValueError; OSError retries; in "
-         "the vertical-diff code every adjustment-loop path conserves movement (delta top_usable_row + delta cursor_dy == 0, "
-         "sign matching the guard), the first-call test is `is None`, the observed row is recorded on every path, the outer "
-         "loop ADDS every query's remainder and follows the busy/repeat flag protocol; Optional-int attributes are never "
-         "tested by truthiness.",
-    note="trusted: re semantics, CPR format; not decided: clamping bounds of the loops, blessed path, encodings",
-    design="DESIGN.md section 3 C18")
-
+    technique="regular-language comparison (DFA from the regex syntax tree) of the report pattern against the CPR grammar for every input; abstract interpretation of get_cursor_position on scripted streams and of get_cursor_vertical_diff over render / movement histories with nested calls injected; Optional-int truthiness rule",
+    text="For every input (language level): the cursor report pattern accepts, as a match of everything read so far, exactly "
+         "<anything incl. newlines><ESC[ or 0x9b>digits;digitsR (DFA inclusion both ways). On a catalogue (bounded): "
+         "get_cursor_position interpreted on scripted streams - reports (1,1)..(123456,7) in 7- and 8-bit form, 13 kinds of "
+         "preceding input (keys, escape sequences, look-alike fragments, newlines, non-ASCII), trailing input, 0/1/3 reads "
+         "failing with OSError, with/without extra_bytes_callback, two stream encodings; the reference terminal answers only when "
+         "ESC[6n was written: returned pair = report minus one, the callback receives exactly the preceding input encoded with "
+         "the stream's encoding, ValueError without a callback, nothing after the report consumed, OSError never escapes. "
+         "get_cursor_vertical_diff after a render, on every entry row, for two movements to every row, optionally with a nested "
+         "call arriving at a read of the query in progress: change of top_usable_row + returned value == observed movement for "
+         "every call; the nested call returns 0 and changes nothing. Optional-int attributes are never tested by truthiness.",
+    note="trusted: re semantics, CPR format, sa/termmodel.py, the evaluator of sa/; not decided: the blessed path, streams and "
+         "movement histories outside the catalogue",
+    design="DESIGN.md section 3 C18", bounded=True)
 CHECKS["C04"] = dict(
-    technique="structural commit/validation rules on FSArray.__setitem__ (single whole-list commit as last statement, dominance of validation), affine-form checks of the padding amounts, who-may-write rows; normalize_slice abstractly interpreted on row indices only",
-    text="All-or-nothing, never-wider and grows-downward clauses: the region path changes existing rows only by one whole-list "
-         "assignment that is the last statement (every rejecting call runs first), keeps rows outside the region in place, is "
-         "preceded by a row-count check that always raises, builds every row with setslice_with_length(..., array width); "
-         "setslice_with_length returns only the spliced row under a dominating len(result) > length check, pads by the affine "
-         "amounts startindex-len(row) / endindex-startindex-len(value) and validates the value's width against the region "
-         "when the row continues past it; the row index is normalised against an unbounded length (normalize_slice "
-         "interpreted on indices at and beyond the height) and the array grows by max(0, stop-len(rows)) blank rows; who may "
-         "write rows/num_columns; region read shape.",
-    note="not decided: which cells show what (the slice arithmetic of splice/normalize_slice) - the compositing itself",
-    design="DESIGN.md section 3 C04")
+    technique="abstract interpretation of FSArray.__setitem__/__getitem__/fsarray (and splice, setslice_with_length, normalize_slice, fmtstr ...) on a catalogue of arrays, regions, blocks and assignment histories against an independent reference grid; who-may-write rule for rows / width over the package",
+    text="About 1000 (array, region, block) cases (2300 thorough) - 4 (10) arrays up to 4 rows x 6 columns incl. zero rows / "
+         "columns and constructor formatting; regions inside, straddling and beyond the height; block rows empty, shorter than, "
+         "equal to and longer than the region; plain, formatted, given as FSArray, same text with other formatting; wrong row "
+         "counts; int and slice indices - plus three scripted assignment histories are evaluated from the source and compared "
+         "cell by cell (character and formatting) with a grid model written from the statement: region shows the block (blank "
+         "where shorter), cells outside untouched, grows downward with blank rows, never wider than the array, a rejected "
+         "assignment raises and changes no cell; region / row reads return what the cells show; fsarray builds rows that show the "
+         "strings and rejects strings wider than an explicit width. FSArray.rows / num_columns are written only inside the "
+         "class and fsarray().",
+    note="trusted: the reference grid in sa/rules/c04.py, the evaluator of sa/; not decided: shapes beyond the catalogue",
+    design="DESIGN.md section 3 C04", bounded=True)
 CHECKS["C15"] = dict(
-    technique="syntax-tree rules for the __getattr__ delegation path cross-checked by abstract interpretation of a curated method list; positional-separator rule for join; affine form of the pad count; scan-form rule for split",
-    text="NARROW: the generic delegation path calls the same-named str method on the plain text with the caller's arguments, "
-         "passes non-text answers through and re-wraps text answers with shared_atts only (tree rules + 64 interpreted "
-         "samples against CPython str); join inserts the separator by position, never depending on accumulated content; "
-         "ljust/rjust pad by width - len(text) characters on the right side and delegate the fillchar form to str; split "
-         "scans non-overlapping matches (escaped literal through finditer, or a find loop advancing by len(sep)) and "
-         "returns the pieces between matches in order; splitlines splits on newline.",
-    note="NOT decided: value-level agreement of split/splitlines/join/ljust/rjust with CPython str on arbitrary arguments "
-         "(index arithmetic over runtime strings); keepends",
-    design="DESIGN.md section 3 C15")
+    technique="abstract interpretation of FmtStr's string methods on a catalogue of values and argument tuples, compared with CPython's str / re.split applied to the plain text, formatting compared per character",
+    text="Delegated methods (upper, lower, strip, center, replace, find, count, startswith, endswith, zfill, title, isdigit, "
+         "rsplit, index via __getattr__) on values with shared and non-shared formatting; join over all lists of up to 3 items of "
+         "four kinds for several separators; ljust / rjust for widths below, at and above the length with default and explicit "
+         "fill; split with literal and regex separators present / absent / adjacent / at the ends; splitlines with keepends False "
+         "and True on texts with \\n, \\r\\n, \\r and the rarer line boundaries: same text or non-text answer as str on the "
+         "plain text, split / splitlines pieces keep each character's formatting, other text results carry exactly the "
+         "shared formatting (shared_atts checked on layouts with empty runs), unknown attributes raise AttributeError.",
+    note="trusted: CPython str / re as oracle (applied to folded text only), the evaluator of sa/; not decided: arguments "
+         "outside the catalogue, split() without a separator, maxsplit (raises NotImplementedError by design)",
+    design="DESIGN.md section 3 C15", bounded=True)
+CHECKS["C12"] = dict(
+    technique="abstract interpretation of every context manager of the package against reference models of the OS state and of the terminal, with crash-point injection at every OS call / terminal write of a bounded body; who-may-call rule for the state-changing primitives over the whole package",
+    text="Nonblocking, Termmode, Cbreak, ReplacedSigIntHandler, Input, FullscreenWindow and CursorAwareWindow are interpreted "
+         "against a reference OS model (termios attributes, fcntl flags, descriptor table, SIGINT handler, signal wake-up fd, "
+         "main / non-main thread, scripted select / read) and the reference terminal. Scenarios: enter / exit for every "
+         "combination of sigint_event, disable_terminal_start_stop, hide_cursor, keep_last_line, thread, platform, two tty "
+         "attribute sets, three flag words, previous handler function / SIG_DFL / SIG_IGN, objects constructed before the state "
+         "changed, left normally and with an exception triple; a body of five requests (resp. three renders) with the k-th OS call "
+         "(resp. terminal write) raising KeyboardInterrupt instead of taking effect, for every k; stream flags after every "
+         "request; three enter / request / exit cycles on one and on fresh objects; an Input nested in a window. After leaving, "
+         "tty attributes, flags, descriptor table, SIGINT handler and wake-up fd equal the state before entering, the cursor is "
+         "visible, the alternate screen is left and the main screen untouched. Structural, every call site of the package: the "
+         "raw state-changing primitives are called only in __enter__/__exit__ of context managers, helpers reachable only from "
+         "those, or a local save / try / finally restore; context managers are used only through `with`, paired delegation or "
+         "returned; no yield inside such a `with`.",
+    note="trusted: sa/osmodel.py and sa/termmodel.py as descriptions of the OS / terminal, Python `with` semantics, the evaluator "
+         "of sa/; not decided: an exception between two bytecodes of the restoring code or between an OS call taking effect "
+         "and its result being stored, other threads, bodies other than the catalogue's. Two keys of one genuine leak "
+         "(threadsafe_event_trigger) are known findings.",
+    design="DESIGN.md section 3 C12", bounded=True)
 
 NOT_APPLICABLE = [
     ("C06", "slicing/normalisation is integer arithmetic over run layouts; no structural clause is a necessary condition visible in the code shape"),
@@ -215,7 +237,7 @@ def main():
             "evidence_file": "evidence/%s.json" % pid,
             "replay_cmd_template": "./check %s --replay {path}" % pid,
             "engine": "sa",
-            "level_claimed": {"category": "other", "text": c["text"] + (PARTIAL if c.get("partial", True) else ""),
+            "level_claimed": {"category": "other", "text": c["text"] + (BOUNDED if c.get("bounded") else PARTIAL if c.get("partial", True) else ""),
                               "design_ref": c["design"]},
             "level_note": c["note"],
             "technique": "static analysis: " + c["technique"],
@@ -238,15 +260,19 @@ def main():
         "engines": [
             {"name": "sa", "path": "sa/", "serves_properties": sorted(CHECKS),
              "kind_free_text": "repository-specific static analysers on the stdlib ast module: source model with MRO and import "
-                               "resolution, constant folder for the package's tables, statement-level CFG with dominators and "
-                               "path enumeration, string/decision-table template extraction, regex syntax-tree queries, "
-                               "reference SGR machine; never imports or runs curtsies"},
+                               "resolution, constant folder for the package's tables, abstract interpreter of the package's "
+                               "source (constant-propagation domain, symbolic text, model objects, stubs for everything outside "
+                               "the package), statement-level CFG with dominators and path enumeration, regex syntax trees to "
+                               "DFAs with language inclusion, reference models (SGR machine, terminal, OS state); never imports "
+                               "curtsies and never executes it with CPython"},
         ],
         "checks": checks,
         "not_applicable": sorted(na, key=lambda d: d["property_id"]),
         "notes": "All checks are static (exit 0 held / 1 VIOLATION / 2 ANALYSIS-ERROR). known_findings.json lists genuine defects "
-                 "recorded rather than repaired and the fix: commits made in /repo. selftest/ holds the mutant catalogue used to "
-                 "test the checkers both ways; seeded/ holds independently written breaking changes and which check catches them.",
+                 "recorded rather than repaired and the fix: commits made in /repo. selftest/fixtures holds positive fixtures, "
+                 "selftest/benign 60 behaviour-preserving refactorings used to measure false alarms, seeded/ 89 independently "
+                 "written breaking changes and (MATRIX.md) which check catches them. Claims marked BOUNDED hold on the finite "
+                 "catalogue they name; see DESIGN.md sections 0 and 1.",
     }
     with open(os.path.join(HERE, "MANIFEST.json"), "w") as f:
         json.dump(man, f, indent=1)
